@@ -61,7 +61,7 @@ Qed.
 Lemma call_filter : forall cfg a hd ex, call cfg cl i1 a hd ex = call cfg cl i2 a hd ex.
 Proof.
   intros cfg a hd ex. unfold call. rewrite own_ctype_filter.
-  destruct (nonempty match ex with Some b => b | None => [] end || c_empty cl || hd); [reflexivity|].
+  destruct (match ex with Some _ => true | None => false end || c_empty cl || hd); [reflexivity|].
   unfold generate, html_body, plain_body, json_body, json_dict. rewrite !make_body_filter. reflexivity.
 Qed.
 End Filter.
@@ -100,7 +100,7 @@ Proof.
     cbn [history map obj_step fst snd]. f_equal.
     - destruct Hh as [-> | ->]; [reflexivity|]. rewrite with_location_filter. apply call_filter.
     - apply IH.
-      destruct (nonempty match ex with Some b => b | None => [] end || c_empty cl || q_head r); [exact Hh|].
+      destruct (match ex with Some _ => true | None => false end || c_empty cl || q_head r); [exact Hh|].
       destruct Hh as [-> | ->]; [right; reflexivity | right; apply filter_idem]. }
   apply G. left; reflexivity.
 Qed.
